@@ -275,6 +275,28 @@ class C16(Prop):
             except Exception as e:
                 cur[i] = {"exc": type(e).__name__}; live.remove(i)
         out["inter"] = cur
+        # (d) deep copies: a trace with a fork point is run once more through the forking runner (copy continued after the
+        # original / original left behind): the copy is an independent game object
+        from .p_poker import fork_diff
+        forks = []
+        for i, t in enumerate(traces):
+            if t.get("fork_at") is None or t["kind"] not in ("poker", "gin"):
+                continue
+            try:
+                if t["kind"] == "poker":
+                    rec, _ = poker.run_ops(t)
+                    fd = fork_diff(t, rec, ALL_FIELDS, True)
+                else:
+                    rec = gin.run_ops(t)
+                    fd = fork_diff(t, rec, ("deck", "discard", "p1", "p2", "turn", "complete", "p1_points", "p2_points", "hud"), True, fmt=p_gin.op_str)
+                if fd:
+                    forks.append(f"trace {i}: {fd}")
+                elif t.get("fork_mode") == "stale" and norm_steps(rec) != norm_steps(res[i]):
+                    forks.append(f"trace {i}: played on a deep copy (original left behind after {t['fork_at']} moves) the game differs "
+                                 f"from the same game played on one object: {first_diff(norm_steps(res[i]), norm_steps(rec))}")
+            except Exception as e:
+                forks.append(f"trace {i}: forking runner failed: {type(e).__name__}: {str(e)[:80]}")
+        out["forks"] = forks
         inv_after = global_inventory()
         # (containers of modules imported lazily in between appear as new keys: only keys present on both sides count)
         out["globals_changed"] = sorted(k for k in set(inv_before) & set(inv_after) if inv_before[k] != inv_after[k])
@@ -320,12 +342,21 @@ class C16(Prop):
                         d = [x for fl in ("deck", "discard", "p1", "p2", "turn", "complete", "p1_points", "p2_points", "hud") for x in p_gin.cmp_field(fl, e.oi, e.om)]
                         if d:
                             why_c.append(f"trace {i} step {e.i}: " + "; ".join(d[:3])); break
+        for w in io.get("forks", [])[:2]:
+            why_o.append(w)
         if io["globals_changed"] or io["globals_vs_start"]:
             why_o.append(f"process-global containers of card_utils were modified: {io['globals_changed'] or io['globals_vs_start']}")
         ok_traces = sum(1 for f in io["fresh"] if "steps" in f and sum(1 for s in f["steps"] if s["r"] == "ok") >= 2)
         key = core.stable_hash([[t.get("stacks"), t.get("p1"), t["ops"]] for t in case["traces"]]) if ok_traces >= 2 else None
         tags = [f"traces={len(case['traces'])}"] + sorted({t["kind"] for t in case["traces"]})
         return Verdict(not why_c, not why_o, " ;; ".join([w[:500] for w in why_o[:3] + why_c[:2]]), key, tags)
+
+
+def norm_steps(rec):
+    """accept/reject + state of every non-probe... every step, JSON-normalised, without the fork bookkeeping"""
+    if rec is None or "steps" not in rec:
+        return rec
+    return json.loads(json.dumps([{k: v for k, v in st.items() if k in ("r", "s")} for st in rec["steps"]]))
 
 
 def first_diff(a, b, path=""):
